@@ -1,50 +1,48 @@
-import PlzVerif.Lemmas.CrashRecover
-import PlzVerif.Lemmas.CrashFixed
-import PlzVerif.Lemmas.WriteFile
-import PlzVerif.Lemmas.Build
+import PlzVerif.Lemmas.CrashUnrepaired
 import PlzVerif.Generated.C32
 /-!
 C32  Crashes never leave files that later builds trust wrongly.
 
 The build step is a list of atomic filesystem operations (`planWith`, phase order regenerated from `buildTarget`);
 a crash is a cut of that list at ANY position; `needsBuilding` is a function of the filesystem state.
+Since the repair in /repo ("fix: drop the recorded rule hashes before the outputs and metadata of a target are
+replaced") the regenerated order is `fixedOrder` = unstamp, metadata, move, stamp, cache: `removeRuleHash` drops the stamp
+(xattr AND fallback record) of every declared output before `StoreTargetMetadata`.  For that step the property holds at
+full strength, in every stamp mode (xattrs, fallback records, symlink outputs) and for file and directory outputs:
 
-* `C32_recover` (full, every stamp mode, file and directory outputs, forced rebuilds included): from any state that
-  satisfies the per-output history invariant, after a cut at any position, the next build of the SAME tree leaves
-  exactly the clean outputs and is stable.  `C32_recover_readsMd` is the same for targets whose up-to-date path loads the
-  metadata file: the next build either succeeds with the clean outputs and the complete metadata, or — only when the
-  cut left a strict prefix of the gob under stamps that are already current — fails once, removes the outputs, and the
-  build after that succeeds (`C32_witness_truncated_metadata` shows this case is real).
-* `C32_crash_inv_partial` + `C32_main_partial`: with the stamp on the inode (xattrs) and file outputs, every crash
-  state still satisfies the history invariant `Inv` of C01, hence a later build of ANY tree (edits after the crash
-  included) equals the clean build.  The property at this strength FAILS in two classes, both replayed on the binary:
-  `C32_witness_fallback_stale_stamp` (the fallback record `.rule_hash_<out>` survives the replacement of its output:
-  xattrs disabled, or a symlink output) and `C32_witness_dir_partial_remove` (a directory output keeps its xattr while
-  `RemoveAll` empties it).
-* `C32_recover_repeated`: the same-tree statement for any number of kills in a row (each attempt starts from what the
-  previous one left), via `CurInv` — the part of the history invariant that survives crashes in every stamp mode.
-* `C32_fixed_crash_inv`, `C32_fixed_metadata_never_truncated`: the repair proposed in the findings (drop the stamp of
-  every declared output before anything destructive: `fixedOrder`) restores the history invariant at every cut in
-  every stamp mode and for directory outputs, and a truncated metadata file is never trusted.
-* `C32_interleaving`: build steps of different targets touch disjoint files, so any interleaving is a family of cuts.
-* `C32_needsBuilding_refines`, `C32_build_refines`: the filesystem-level test / build step refine `buildOne` of the
-  history model (Model/Build.lean) on `view`.
+* `C32_crash_inv`: every cut leaves every output of plz-out in a state where "stamped ⇒ it is what its stamp describes"
+  (the history invariant of C01) still holds.
+* `C32_main`: hence a build of ANY later repository state (edits after the crash included) from what an arbitrary family
+  of interrupted build steps left equals the clean build (conditional, like C01, on injective hash pre-images).
+  `C32_interleaving`: concurrently running build steps of different targets reduce to per-target cuts.
+* `C32_recover`: the next plain build of the same tree succeeds — also for targets whose up-to-date path loads the
+  metadata file (`C32_metadata_never_truncated`: a truncated gob is never found under current stamps) — leaves exactly
+  the clean outputs and is then stable; `C32_recover_repeated`: after any number of kills in a row as well.
+* `C32_needsBuilding_refines`, `C32_build_refines`: the filesystem-level test / step refine `buildOne` of the history model.
+* `C32_before_fix_*`: the three kernel-checked witnesses of what went wrong with the OLD order (`plan = planWith
+  codedOrder`; conditional on the old fact value by construction); the theorems that held then are in
+  Lemmas/CrashUnrepaired.lean.
 * `C32_writeFile_atomic`: after every cut of fs.WriteFile the destination holds its old content or the complete new one.
 -/
 namespace PlzVerif.Props.C32
 set_option linter.unusedSectionVars false
 set_option linter.unusedSimpArgs false
-open PlzVerif.CrashBuild PlzVerif.Generated
+open PlzVerif.CrashBuild PlzVerif.CrashBuild.Unrepaired PlzVerif.Generated
 
 /-- Side condition on the facts regenerated from buildTarget / StoreTargetMetadata / moveOutput(s) / writeRuleHash /
     readRuleHashFromXattrs / needsBuilding / Build / fs.RecordAttr(File) / fs.WriteFile. -/
-def PhasesOK : Bool := C32.buildPhases == codedOrder
+def PhasesOK : Bool := C32.buildPhases == fixedOrder
 def WriteFileCallsOK : Bool := C32.writeFileCalls == WriteFile.codedCalls
 def FactsOK : Bool :=
   PhasesOK && WriteFileCallsOK &&
   C32.stampPhaseCalls == ["OutputHash", "writeRuleHash"] &&
+  C32.removeRuleHashSteps == ["if(len(outputs) == 0):RemoveAttr", "range(outputs):RemoveAttr(element)"] &&
+  C32.removeRuleHashOverFullOutputs && C32.removeAttrCalls == ["Remove", "fallbackFileName", "LRemove", "LRemove"] &&
   C32.storeMetadataCalls == ["RemoveAll", "MkdirAll", "Create", "Encode"] &&
   C32.moveOutputsLoopsOverOutputs && C32.moveOutputKeepsBeforeRemove &&
+  -- moveOutput compares the TRUE hash of the old output: buildTarget re-hashes every old output (recalc = true, which also
+  -- rewrites the memoised user.plz_hash_* xattr a partially removed directory would still carry) before the command runs
+  C32.oldOutputsRehashedBeforeCommand && C32.outputHashRecalcArgs == ["true", "true"] &&
   C32.moveOutputCalls == ["Hash", "PathExists", "Hash", "Equal", "RemoveAll", "PathExists", "MkdirAll", "Rename", "RecursiveCopy"] &&
   C32.writeRuleHashSteps == ["if(len(outputs) == 0):RecordAttrFile", "range(outputs):RecordAttr(element)",
     "if(FileExists):RecordAttr(targetBuildMetadataFileName)"] &&
@@ -64,7 +62,8 @@ def FactsOK : Bool :=
   C32.writeFileChmodArgs == ["temp.Name", "mode"] && C32.writeFileDefaultMode == "0664" &&
   C32.renameFileCalls.head? == some "Rename"
 
-/-- Obligation a code change can break (e.g. writing the stamp before the outputs are moved changes `buildPhases`). -/
+/-- Obligation a code change can break (e.g. no longer dropping the old stamps first, or writing the new stamp before
+    the outputs are moved, changes `buildPhases`). -/
 theorem C32_facts_ok : FactsOK = true := by decide
 
 theorem facts_head : PhasesOK = true ∧ WriteFileCallsOK = true := by
@@ -74,7 +73,7 @@ theorem facts_head : PhasesOK = true ∧ WriteFileCallsOK = true := by
   generalize WriteFileCallsOK = w at h ⊢
   cases p <;> cases w <;> simp_all
 
-theorem phases_eq : C32.buildPhases = codedOrder := by
+theorem phases_eq : C32.buildPhases = fixedOrder := by
   have h := facts_head.1
   simpa [PhasesOK] using h
 
@@ -88,263 +87,176 @@ variable {N C S H : Type} [DecidableEq N] [DecidableEq H] [DecidableEq S]
 def planG (b : Params N C S H) (fs : TState N C S) := planWith C32.buildPhases b fs
 def buildG (b : Params N C S H) (force : Bool) (fs : TState N C S) := buildFSWith C32.buildPhases b force fs
 
-theorem planG_eq (b : Params N C S H) (fs : TState N C S) : planG b fs = plan b fs := by
-  unfold planG plan; rw [phases_eq]
-theorem buildG_eq (b : Params N C S H) (force : Bool) (fs : TState N C S) : buildG b force fs = buildFS b force fs := by
-  unfold buildG buildFS; rw [phases_eq]
+theorem planG_eq (b : Params N C S H) (fs : TState N C S) : planG b fs = planFixed b fs := by
+  unfold planG planFixed; rw [phases_eq]
+theorem buildG_eq (b : Params N C S H) (force : Bool) (fs : TState N C S) :
+    buildG b force fs = buildFSWith fixedOrder b force fs := by
+  unfold buildG; rw [phases_eq]
 
-theorem buildFS_rebuild (b : Params N C S H) (fs : TState N C S) (h : needsBuilding b fs = true) :
-    buildFS b false fs = (applyOps fs (plan b fs), true) := by
-  simp [buildFS, buildFSWith, h, plan]
+theorem buildFix_rebuild (b : Params N C S H) (fs : TState N C S) (h : needsBuilding b fs = true) :
+    buildFSWith fixedOrder b false fs = (applyOps fs (planFixed b fs), true) := by
+  simp [buildFSWith, h, planFixed]
 
-theorem buildFS_skip (b : Params N C S H) (fs : TState N C S) (h : needsBuilding b fs = false) (h2 : mdFails b fs = false) :
-    buildFS b false fs = (fs, true) := by
-  simp [buildFS, buildFSWith, h, h2]
+theorem buildFix_skip (b : Params N C S H) (fs : TState N C S) (h : needsBuilding b fs = false) (h2 : mdFails b fs = false) :
+    buildFSWith fixedOrder b false fs = (fs, true) := by
+  simp [buildFSWith, h, h2]
 
-theorem buildFS_fail (b : Params N C S H) (fs : TState N C S) (h : needsBuilding b fs = false) (h2 : mdFails b fs = true) :
-    buildFS b false fs = (removeOutputs b fs, false) := by
-  simp [buildFS, buildFSWith, h, h2]
-
-/-- every declared output is there with the clean content -/
-def OutputsClean (b : Params N C S H) (fs : TState N C S) : Prop :=
-  ∀ n ∈ b.outs, ∃ nd, (fs.out n).gen = some nd ∧ nd.content = b.new n
-
-theorem complete_build (b : Params N C S H) (fs : TState N C S) (hnd : b.outs.Nodup) (hne : b.outs ≠ [])
+theorem complete_build_fixed (b : Params N C S H) (fs : TState N C S) (hnd : b.outs.Nodup) (hne : b.outs ≠ [])
     (hH : Function.Injective b.hash) :
-    OutputsClean b (applyOps fs (plan b fs)) ∧ (applyOps fs (plan b fs)).md = some b.mdBytes ∧
-    needsBuilding b (applyOps fs (plan b fs)) = false := by
-  refine ⟨fun n hn => (plan_out b fs hH hnd n hn).2, plan_md b fs, ?_⟩
-  apply needsBuilding_false_of b _ hne ⟨_, plan_md b fs⟩
+    OutputsClean b (applyOps fs (planFixed b fs)) ∧ (applyOps fs (planFixed b fs)).md = some b.mdBytes ∧
+    needsBuilding b (applyOps fs (planFixed b fs)) = false := by
+  refine ⟨fun n hn => (planFixed_out b fs hH hnd n hn).2, planFixed_md b fs, ?_⟩
+  apply needsBuilding_false_of b _ hne ⟨_, planFixed_md b fs⟩
   intro n hn
-  obtain ⟨h1, nd, h2, _⟩ := plan_out b fs hH hnd n hn
+  obtain ⟨h1, nd, h2, _⟩ := planFixed_out b fs hH hnd n hn
   exact ⟨h1, nd, h2⟩
 
-/-- in a crash state that `needsBuilding` accepts, every output is the clean one -/
-theorem trusted_crash_clean (b : Params N C S H) (G : N → C → S → Prop) (fs : TState N C S)
+/-! ### every cut keeps the history invariant -/
+
+/-- **C32, any later tree.**  Take any state of the target's files in which every stamped output is what its stamp
+    describes (`hinv`), and a build step whose own outputs are what its stamp describes (`hnew`).  EVERY cut of the step
+    leaves every output of plz-out — declared by this step or not — in such a state again: whatever is edited after
+    the crash, nothing left behind can be mistaken for an up-to-date output.  All stamp modes (per output: xattr on the
+    inode, or fallback record), file and directory outputs (arbitrary partial removals), arbitrary splitting of writes. -/
+theorem C32_crash_inv (b : Params N C S H) (G : N → C → S → Prop) (fs : TState N C S)
     (hnd : b.outs.Nodup) (hH : Function.Injective b.hash)
-    (hG : ∀ n ∈ b.outs, ∀ c, G n c b.stamp → c = b.new n)
-    (hinv : ∀ n ∈ b.outs, SliceInv (G n) (b.useFb n) (fs.out n)) (k : Nat)
-    (hnb : needsBuilding b (applyOps fs ((plan b fs).take k)) = false) :
-    OutputsClean b (applyOps fs ((plan b fs).take k)) := by
-  intro n hn
-  obtain ⟨_, hall⟩ := needsBuilding_false b _ hnb
-  obtain ⟨hs, nd, hg⟩ := hall n hn
-  obtain ⟨j, hj⟩ := crash_slice b fs n hnd hn k
-  refine ⟨nd, hg, ?_⟩
-  have hf := crash_forms b fs n j
-  rw [← hj] at hf
-  exact crash_trusted_is_new b n (G n) hH (hG n hn) (fs.out n) _ (hinv n hn) hf nd hg hs
-
-/-- **C32 (same tree).**  Take any state of the target's files in which every stamped output is what its stamp
-    describes (`hinv`; `hG`: the current stamp describes exactly the current outputs — C01's skip soundness).  Kill the
-    build step after ANY number `k` of its atomic operations (whether or not it was a forced rebuild).  The next plain
-    build of the same tree succeeds, leaves exactly the clean outputs, and the build after that has nothing to do.
-    All stamp modes (xattr / fallback records), file and directory outputs (arbitrary partial removals). -/
-theorem C32_recover (b : Params N C S H) (G : N → C → S → Prop) (fs : TState N C S)
-    (hnd : b.outs.Nodup) (hne : b.outs ≠ []) (hH : Function.Injective b.hash)
-    (hG : ∀ n ∈ b.outs, ∀ c, G n c b.stamp → c = b.new n)
-    (hinv : ∀ n ∈ b.outs, SliceInv (G n) (b.useFb n) (fs.out n))
-    (hmd : b.readsMd = false) (k : Nat) :
-    (buildG b false (applyOps fs ((planG b fs).take k))).2 = true ∧
-    OutputsClean b (buildG b false (applyOps fs ((planG b fs).take k))).1 ∧
-    needsBuilding b (buildG b false (applyOps fs ((planG b fs).take k))).1 = false := by
-  rw [planG_eq, buildG_eq]
-  by_cases hnb : needsBuilding b (applyOps fs ((plan b fs).take k)) = true
-  · rw [buildFS_rebuild b _ hnb]
-    have := complete_build b (applyOps fs ((plan b fs).take k)) hnd hne hH
-    exact ⟨rfl, this.1, this.2.2⟩
-  · have hnb' : needsBuilding b (applyOps fs ((plan b fs).take k)) = false := by simpa using hnb
-    rw [buildFS_skip b _ hnb' (by simp [mdFails, hmd])]
-    exact ⟨rfl, trusted_crash_clean b G fs hnd hH hG hinv k hnb', hnb'⟩
-
-/-- **C32 (same tree) for targets whose up-to-date path loads the metadata file** (post-build functions, output
-    directories).  `hdec`: a truncated gob does not decode; `hmd0`: metadata already in place under the current stamps
-    is the current metadata.  The next build either succeeds with clean outputs and the complete metadata, or fails
-    (exactly when the cut left a strict prefix of the gob that does not decode, under stamps that are already
-    current), in which case `Build` removes the outputs and the build after that succeeds with the same result. -/
-theorem C32_recover_readsMd (b : Params N C S H) (G : N → C → S → Prop) (fs : TState N C S)
-    (hnd : b.outs.Nodup) (hne : b.outs ≠ []) (hH : Function.Injective b.hash)
-    (hG : ∀ n ∈ b.outs, ∀ c, G n c b.stamp → c = b.new n)
-    (hinv : ∀ n ∈ b.outs, SliceInv (G n) (b.useFb n) (fs.out n))
-    (hr : b.readsMd = true) (hload : b.mdLoads b.mdBytes = true)
-    (hdec : ∀ j, b.mdLoads (b.mdBytes.take j) = true → b.mdBytes.take j = b.mdBytes)
-    (hmd0 : ∀ bs, fs.md = some bs → (∀ n ∈ b.outs, readStamp b fs n = some b.stamp) → bs = b.mdBytes) (k : Nat) :
-    let r := buildG b false (applyOps fs ((planG b fs).take k))
-    (r.2 = true → OutputsClean b r.1 ∧ r.1.md = some b.mdBytes ∧ needsBuilding b r.1 = false) ∧
-    (r.2 = false →
-      (∃ j, (applyOps fs ((planG b fs).take k)).md = some (b.mdBytes.take j) ∧ b.mdLoads (b.mdBytes.take j) = false) ∧
-      (buildG b false r.1).2 = true ∧ OutputsClean b (buildG b false r.1).1 ∧ (buildG b false r.1).1.md = some b.mdBytes) := by
-  simp only [planG_eq, buildG_eq]
-  have hms := crash_md_stamps b fs k
-  have hclean0 := trusted_crash_clean b G fs hnd hH hG hinv k
-  generalize hc : applyOps fs ((plan b fs).take k) = crash at hms hclean0
-  by_cases hnb : needsBuilding b crash = true
-  · rw [buildFS_rebuild b _ hnb]
-    have := complete_build b crash hnd hne hH
-    exact ⟨fun _ => ⟨this.1, this.2.1, this.2.2⟩, fun h => by simp at h⟩
-  · have hnb' : needsBuilding b crash = false := by simpa using hnb
-    have hclean : OutputsClean b crash := hclean0 hnb'
-    obtain ⟨⟨bs, hbs⟩, hall⟩ := needsBuilding_false b _ hnb'
-    by_cases hl : b.mdLoads bs = true
-    · -- the metadata decodes: it is the complete current one
-      have hfull : bs = b.mdBytes := by
-        rcases hms with ⟨h1, h2⟩ | h | ⟨j, h⟩
-        · refine hmd0 bs (by rw [← h1, hbs]) ?_
-          intro n hn; rw [← h2 n]; exact (hall n hn).1
-        · rw [hbs] at h; simp at h
-        · rw [hbs] at h; simp at h; subst h; exact hdec j hl
-      rw [buildFS_skip b _ hnb' (by simp [mdFails, hbs, hl])]
-      exact ⟨fun _ => ⟨hclean, by rw [hbs, hfull], hnb'⟩, fun h => by simp at h⟩
-    · have hl' : b.mdLoads bs = false := by simpa using hl
-      rw [buildFS_fail b _ hnb' (by simp [mdFails, hbs, hl', hr])]
-      refine ⟨fun h => by simp at h, fun _ => ⟨?_, ?_⟩⟩
-      · rcases hms with ⟨h1, h2⟩ | h | ⟨j, h⟩
-        · exfalso
-          have := hmd0 bs (by rw [← h1, hbs]) (by intro n hn; rw [← h2 n]; exact (hall n hn).1)
-          rw [this, hload] at hl'; simp at hl'
-        · rw [hbs] at h; simp at h
-        · rw [hbs] at h; simp at h; subst h; exact ⟨j, hbs, hl'⟩
-      · -- second attempt: the outputs are gone, so it rebuilds
-        have hnb2 : needsBuilding b (removeOutputs b crash) = true := by
-          cases ho : b.outs with
-          | nil => exact absurd ho hne
-          | cons n0 ns =>
-            simp only [needsBuilding, Bool.or_eq_true, List.any_eq_true]
-            right
-            exact ⟨n0, by rw [ho]; simp, by simp [removeOutputs, ho]⟩
-        rw [buildFS_rebuild b _ hnb2]
-        have := complete_build b (removeOutputs b crash) hnd hne hH
-        exact ⟨rfl, this.1, this.2.1⟩
-
-/-- "an output that reads back the CURRENT stamp is the current output" — the part of the history invariant that a
-    same-tree recovery needs; unlike the full invariant it survives crashes in every stamp mode. -/
-def CurInv (b : Params N C S H) (fs : TState N C S) : Prop :=
-  ∀ n ∈ b.outs, SliceInv (fun c s => s = b.stamp → c = b.new n) (b.useFb n) (fs.out n)
-
-/-- any number of interrupted build steps of the same tree, each cut anywhere, each started from what the previous
-    one left -/
-def crashSeq (b : Params N C S H) : List Nat → TState N C S → TState N C S
-  | [], fs => fs
-  | k :: ks, fs => crashSeq b ks (applyOps fs ((planG b fs).take k))
-
-theorem curInv_crash (b : Params N C S H) (fs : TState N C S) (hnd : b.outs.Nodup) (hH : Function.Injective b.hash)
-    (h : CurInv b fs) (k : Nat) : CurInv b (applyOps fs ((planG b fs).take k)) := by
-  intro n hn nd s hg hs hcur
-  subst hcur
-  rw [planG_eq] at hg hs
-  obtain ⟨j, hj⟩ := crash_slice b fs n hnd hn k
-  have hf := crash_forms b fs n j
-  rw [← hj] at hf
-  exact crash_trusted_is_new b n (fun c s => s = b.stamp → c = b.new n) hH (fun c hc => hc rfl) (fs.out n) _ (h n hn) hf nd hg hs
-
-theorem curInv_crashSeq (b : Params N C S H) (hnd : b.outs.Nodup) (hH : Function.Injective b.hash) :
-    ∀ (ks : List Nat) (fs : TState N C S), CurInv b fs → CurInv b (crashSeq b ks fs)
-  | [], _, h => h
-  | k :: ks, fs, h => curInv_crashSeq b hnd hH ks _ (curInv_crash b fs hnd hH h k)
-
-/-- **C32 (same tree), repeated crashes.**  Kill the build of the same tree any number of times, each time after any
-    number of operations, each attempt starting from whatever the previous one left behind; the first build that is
-    allowed to finish leaves exactly the clean outputs (all stamp modes, file and directory outputs). -/
-theorem C32_recover_repeated (b : Params N C S H) (fs : TState N C S)
-    (hnd : b.outs.Nodup) (hne : b.outs ≠ []) (hH : Function.Injective b.hash)
-    (hinv : CurInv b fs) (hmd : b.readsMd = false) (ks : List Nat) :
-    (buildG b false (crashSeq b ks fs)).2 = true ∧
-    OutputsClean b (buildG b false (crashSeq b ks fs)).1 ∧
-    needsBuilding b (buildG b false (crashSeq b ks fs)).1 = false := by
-  have h := curInv_crashSeq b hnd hH ks fs hinv
-  have := C32_recover b (fun n c s => s = b.stamp → c = b.new n) (crashSeq b ks fs) hnd hne hH
-    (fun n _ c hc => hc rfl) h hmd 0
-  simpa [applyOps] using this
-
-/-! ### any later tree: the history invariant at every cut (xattr stamps, file outputs) -/
-
-theorem sliceInv_congr (G : C → S → Prop) (fb : Bool) (s1 s2 : Slice C S) (hg : s1.gen = s2.gen) (hf : s1.fb = s2.fb)
-    (h : SliceInv G fb s1) : SliceInv G fb s2 := by
-  intro nd s h1 h2
-  exact h nd s (by rw [hg]; exact h1) (by rw [sliceStamp_congr fb s1 s2 hg hf]; exact h2)
-
-/-- **C32 (any later tree), partial.**  When stamps live on the output's inode (xattrs enabled, not a symlink) and old
-    outputs are removed in one step (regular files), EVERY cut of the build step leaves every output of plz-out in a
-    state where "stamped ⇒ it is what the stamp describes" still holds — the history invariant of C01, so edits made
-    after the crash cannot be confused with the interrupted build.  (`hnew`: the interrupted build's outputs are what
-    its stamp describes.)  The two hypotheses are necessary: see the two witnesses below. -/
-theorem C32_crash_inv_partial (b : Params N C S H) (G : N → C → S → Prop) (fs : TState N C S)
-    (hnd : b.outs.Nodup) (hH : Function.Injective b.hash)
-    (hx : ∀ n ∈ b.outs, b.useFb n = false ∧ b.rmSteps n = [])
     (hnew : ∀ n ∈ b.outs, G n (b.new n) b.stamp)
-    (hinv : ∀ n, SliceInv (G n) false (fs.out n)) (k : Nat) :
-    ∀ n, SliceInv (G n) false ((applyOps fs ((planG b fs).take k)).out n) := by
+    (hinv : ∀ n, SliceInv (G n) (b.useFb n) (fs.out n)) (k : Nat) :
+    ∀ n, SliceInv (G n) (b.useFb n) ((applyOps fs ((planG b fs).take k)).out n) := by
   intro n
   rw [planG_eq]
+  obtain ⟨j, hj⟩ := take_filterMap (proj n) (planFixed b fs) k
+  rw [applyOps_out, hj]
   by_cases hn : n ∈ b.outs
-  · obtain ⟨j, hj⟩ := crash_slice b fs n hnd hn k
-    have hf := crash_forms b fs n j
-    rw [← hj] at hf
-    exact crash_sliceInv b n (G n) hH (hx n hn).1 (hx n hn).2 (hnew n hn) (fs.out n) _ (hinv n) hf
-  · obtain ⟨j, hj⟩ := take_filterMap (proj n) (plan b fs) k
-    rw [applyOps_out, hj, plan_proj_other b fs n hn]
+  · rw [planFixed_proj b fs n hnd hn]
+    exact fixed_sliceInv b fs n (G n) hH (hnew n hn) (hinv n) j
+  · rw [planFixed_proj_other b fs n hn]
     cases j with
     | zero => exact hinv n
     | succ j =>
       simp only [List.take_succ_cons, List.take_nil]
-      exact sliceInv_congr (G n) false (fs.out n) _ rfl rfl (hinv n)
+      exact sliceInv_congr (G n) (b.useFb n) (fs.out n) _ rfl rfl (hinv n)
 
-/-- what a later build sees of a single-output target satisfies the same statement -/
-theorem view_good (b : Params N C S H) (fs : TState N C S) (n0 : N) (G : C → S → Prop)
-    (h : SliceInv G (b.useFb n0) (fs.out n0)) (c : C) (s : S) (hv : view b fs n0 = some (c, s)) : G c s := by
-  unfold view at hv
-  split at hv
-  · rename_i _ nd s' _ hg hs
-    simp at hv
-    obtain ⟨rfl, rfl⟩ := hv
-    exact h nd s' hg hs
-  · simp at hv
+/-- **A truncated metadata file is never trusted**: in every crash state that `needsBuilding` accepts, the metadata
+    file decodes (`hmd0`: it did so before the build step whenever the stamps were current). -/
+theorem C32_metadata_never_truncated (b : Params N C S H) (fs : TState N C S)
+    (hnd : b.outs.Nodup) (hne : b.outs ≠ []) (hload : b.mdLoads b.mdBytes = true)
+    (hmd0 : ∀ bs, fs.md = some bs → (∀ n ∈ b.outs, readStamp b fs n = some b.stamp) → b.mdLoads bs = true) (k : Nat)
+    (hnb : needsBuilding b (applyOps fs ((planG b fs).take k)) = false) :
+    mdFails b (applyOps fs ((planG b fs).take k)) = false := by
+  rw [planG_eq] at hnb ⊢
+  obtain ⟨⟨bs, hbs⟩, hall⟩ := needsBuilding_false b _ hnb
+  have hl : b.mdLoads bs = true := by
+    rcases crash_fixed_md b fs hnd hne k with ⟨h1, h2⟩ | ⟨n, hn, h⟩ | h
+    · exact hmd0 bs (by rw [← h1, hbs]) (by intro n hn; rw [← h2 n]; exact (hall n hn).1)
+    · rw [(hall n hn).1] at h; simp at h
+    · rw [hbs] at h; simp at h; rw [h]; exact hload
+  simp [mdFails, hbs, hl]
+
+/-! ### the next build of the same tree -/
+
+/-- the hypotheses about one build step and the state it starts from, bundled -/
+structure StepOK (b : Params N C S H) (G : N → C → S → Prop) (fs : TState N C S) : Prop where
+  nodup : b.outs.Nodup
+  nonempty : b.outs ≠ []
+  hashInj : Function.Injective b.hash
+  /-- the current stamp describes exactly the current outputs (C01's skip soundness) -/
+  determines : ∀ n ∈ b.outs, ∀ c, G n c b.stamp → c = b.new n
+  produces : ∀ n ∈ b.outs, G n (b.new n) b.stamp
+  /-- history invariant of the state the step starts from -/
+  inv : ∀ n, SliceInv (G n) (b.useFb n) (fs.out n)
+  /-- targets that load their metadata when up to date: the complete gob loads, and so did the file already in place
+      whenever the stamps were current -/
+  md : b.readsMd = true → b.mdLoads b.mdBytes = true ∧
+        ∀ bs, fs.md = some bs → (∀ n ∈ b.outs, readStamp b fs n = some b.stamp) → b.mdLoads bs = true
+
+/-- **C32, same tree.**  Kill the build step after ANY number `k` of its atomic operations (forced rebuild or not).
+    The next plain build of the same tree SUCCEEDS (first attempt; post-build targets included), leaves exactly the
+    clean outputs, and the build after that has nothing to do.  (The build step modelled is the one that runs the
+    command: every cache lookup is a miss; retrieval from a cache is C12's / C02's model.) -/
+theorem C32_recover (b : Params N C S H) (G : N → C → S → Prop) (fs : TState N C S) (h : StepOK b G fs) (k : Nat) :
+    (buildG b false (applyOps fs ((planG b fs).take k))).2 = true ∧
+    OutputsClean b (buildG b false (applyOps fs ((planG b fs).take k))).1 ∧
+    needsBuilding b (buildG b false (applyOps fs ((planG b fs).take k))).1 = false := by
+  have hinv' := C32_crash_inv b G fs h.nodup h.hashInj h.produces h.inv k
+  have hmdk := fun hl hm => C32_metadata_never_truncated b fs h.nodup h.nonempty hl hm k
+  rw [buildG_eq]
+  generalize hc : applyOps fs ((planG b fs).take k) = crash at hinv' hmdk
+  by_cases hnb : needsBuilding b crash = true
+  · rw [buildFix_rebuild b _ hnb]
+    have := complete_build_fixed b crash h.nodup h.nonempty h.hashInj
+    exact ⟨rfl, this.1, this.2.2⟩
+  · have hnb' : needsBuilding b crash = false := by simpa using hnb
+    have hmf : mdFails b crash = false := by
+      cases hr : b.readsMd with
+      | false => simp [mdFails, hr]
+      | true => exact hmdk (h.md hr).1 (h.md hr).2 hnb'
+    rw [buildFix_skip b _ hnb' hmf]
+    refine ⟨rfl, ?_, hnb'⟩
+    intro n hn
+    obtain ⟨_, hall⟩ := needsBuilding_false b _ hnb'
+    obtain ⟨hs, nd, hg⟩ := hall n hn
+    exact ⟨nd, hg, h.determines n hn _ (hinv' n nd b.stamp hg hs)⟩
+
+/-- any number of interrupted build steps of the same tree, each cut anywhere, each started from what the previous
+    one left -/
+def crashSeqG (b : Params N C S H) : List Nat → TState N C S → TState N C S
+  | [], fs => fs
+  | k :: ks, fs => crashSeqG b ks (applyOps fs ((planG b fs).take k))
+
+theorem inv_crashSeq (b : Params N C S H) (G : N → C → S → Prop) (hnd : b.outs.Nodup) (hH : Function.Injective b.hash)
+    (hnew : ∀ n ∈ b.outs, G n (b.new n) b.stamp) :
+    ∀ (ks : List Nat) (fs : TState N C S), (∀ n, SliceInv (G n) (b.useFb n) (fs.out n)) →
+      ∀ n, SliceInv (G n) (b.useFb n) ((crashSeqG b ks fs).out n)
+  | [], _, h => h
+  | k :: ks, fs, h => inv_crashSeq b G hnd hH hnew ks _ (C32_crash_inv b G fs hnd hH hnew h k)
+
+/-- **C32, same tree, repeated crashes.**  Kill the build of the same tree any number of times, each attempt starting
+    from whatever the previous one left; the first build that is allowed to finish leaves exactly the clean outputs.
+    (Stated for targets that do not load their metadata; for the others apply `C32_recover` to the last cut.) -/
+theorem C32_recover_repeated (b : Params N C S H) (G : N → C → S → Prop) (fs : TState N C S) (h : StepOK b G fs)
+    (hr : b.readsMd = false) (ks : List Nat) :
+    (buildG b false (crashSeqG b ks fs)).2 = true ∧
+    OutputsClean b (buildG b false (crashSeqG b ks fs)).1 ∧
+    needsBuilding b (buildG b false (crashSeqG b ks fs)).1 = false := by
+  have hi := inv_crashSeq b G h.nodup h.hashInj h.produces ks fs h.inv
+  have h' : StepOK b G (crashSeqG b ks fs) :=
+    { nodup := h.nodup, nonempty := h.nonempty, hashInj := h.hashInj, determines := h.determines, produces := h.produces,
+      inv := hi, md := fun hm => by rw [hr] at hm; simp at hm }
+  have := C32_recover b G (crashSeqG b ks fs) h' 0
+  simpa [applyOps] using this
+
+/-! ### refinement to the history model of C01, and the property over histories -/
 
 /-- `needsBuilding` on the filesystem is the "up to date ⇒ skip" test of the history model (Model/Build.lean
     `buildOne`: the stamp in plz-out equals the current one) on `view`. -/
 theorem C32_needsBuilding_refines (b : Params N C S H) (fs : TState N C S) (n0 : N) (ho : b.outs = [n0]) :
-    needsBuilding b fs = false ↔ ∃ c, view b fs n0 = some (c, b.stamp) := by
-  constructor
-  · intro h
-    obtain ⟨⟨bs, hbs⟩, hall⟩ := needsBuilding_false b fs h
-    obtain ⟨hs, nd, hg⟩ := hall n0 (by rw [ho]; simp)
-    exact ⟨nd.content, by simp [view, hbs, hg, hs]⟩
-  · rintro ⟨c, hv⟩
-    unfold view at hv
-    split at hv
-    · rename_i bs nd s' hm hg hs
-      simp at hv
-      apply needsBuilding_false_of b fs (by rw [ho]; simp) ⟨bs, hm⟩
-      intro n hn
-      rw [ho] at hn; simp at hn; subst hn
-      exact ⟨by rw [hs, hv.2], nd, hg⟩
-    · simp at hv
+    needsBuilding b fs = false ↔ ∃ c, view b fs n0 = some (c, b.stamp) :=
+  Unrepaired.C32_needsBuilding_refines b fs n0 ho
 
 /-- a complete build step leaves the clean output under the current stamp in `view` -/
 theorem C32_build_refines (b : Params N C S H) (fs : TState N C S) (n0 : N) (ho : b.outs = [n0])
     (hH : Function.Injective b.hash) : view b (applyOps fs (planG b fs)) n0 = some (b.new n0, b.stamp) := by
   rw [planG_eq]
-  obtain ⟨hs, nd, hg, hc⟩ := plan_out b fs hH (by rw [ho]; simp) n0 (by rw [ho]; simp)
-  simp [view, plan_md b fs, hg, hs, hc]
+  obtain ⟨hs, nd, hg, hc⟩ := planFixed_out b fs hH (by rw [ho]; simp) n0 (by rw [ho]; simp)
+  simp [view, planFixed_md b fs, hg, hs, hc]
 
 section History
 open PlzVerif.Build
 variable {K A F N' S' : Type} [DecidableEq K] [DecidableEq S'] [DecidableEq N']
 variable (fx : Facts) (mv : C → C → C) (exec : A → List (N' × C) → C) (ruleSer : A → S') (pathSer : C → H)
 
-/-- "the output is `exec` of what the stamp describes" (the body of C01's `Inv`) -/
-def GoodOut (c : C) (s : Stamp S' N' H) : Prop := ∃ a ins, s = stampOf ruleSer pathSer a ins ∧ c = exec a ins
-
-/-- **C32 ⇒ C01 after a crash (partial: xattr stamps, single file output per target).**  Let every target's files
-    satisfy the history invariant, let any set of build steps (for whatever attributes and inputs they were started
-    with) be cut anywhere — independently per target, i.e. under any interleaving, see `C32_interleaving` — then a build
-    of ANY repository state `r` from what is left gives every requested target exactly its clean output. -/
-theorem C32_main_partial (hmv : MvOK pathSer mv) (hf : fx.cmpRule = true ∧ fx.cmpSource = true)
+/-- **C32 ⇒ C01 after a crash.**  Let every target's files satisfy the history invariant, let any set of build steps
+    (for whatever attributes and inputs they were started with) be cut anywhere — independently per target, i.e. under
+    any interleaving, see `C32_interleaving` — then a build of ANY repository state `r` from what is left gives every
+    requested target exactly its clean output.  Every stamp mode, file or directory output (one per target, as in the
+    history model). -/
+theorem C32_main (hmv : MvOK pathSer mv) (hf : fx.cmpRule = true ∧ fx.cmpSource = true)
     (hR : Function.Injective ruleSer) (hP : Function.Injective pathSer)
     (g : K → TState N C (Stamp S' N' H)) (bs : K → Params N C (Stamp S' N' H) H) (n0 : K → N)
-    (hb : ∀ k, (bs k).outs = [n0 k] ∧ (bs k).useFb (n0 k) = false ∧ (bs k).rmSteps (n0 k) = [] ∧ (bs k).hash = pathSer ∧
+    (hb : ∀ k, (bs k).outs = [n0 k] ∧ (bs k).hash = pathSer ∧
       ∃ a ins, (bs k).stamp = stampOf ruleSer pathSer a ins ∧ (bs k).new (n0 k) = exec a ins)
-    (hinv : ∀ k n, SliceInv (GoodOut exec ruleSer pathSer) false ((g k).out n))
+    (hinv : ∀ k n, SliceInv (GoodOut exec ruleSer pathSer) ((bs k).useFb n) ((g k).out n))
     (cut : K → Nat) (r : Repo K A F N' C) (sel : K → Bool) (hwf : WFList sel [] r.targets) :
     ∀ k ∈ selKeys sel r.targets, ∃ c st,
       (build fx mv exec ruleSer pathSer r sel
@@ -353,14 +265,12 @@ theorem C32_main_partial (hmv : MvOK pathSer mv) (hf : fx.cmpRule = true ∧ fx.
   have hInv : Inv exec ruleSer pathSer
       (fun k => view (bs k) (applyOps (g k) ((planG (bs k) (g k)).take (cut k))) (n0 k)) := by
     intro k c st hv
-    obtain ⟨ho, hfb, hrm, hh, a, ins, hst, hnw⟩ := hb k
-    have hsl := C32_crash_inv_partial (bs k) (fun _ => GoodOut exec ruleSer pathSer) (g k)
+    obtain ⟨ho, hh, a, ins, hst, hnw⟩ := hb k
+    have hsl := C32_crash_inv (bs k) (fun _ => GoodOut exec ruleSer pathSer) (g k)
       (by rw [ho]; simp) (by rw [hh]; exact hP)
-      (by intro n hn; rw [ho] at hn; simp at hn; subst hn; exact ⟨hfb, hrm⟩)
       (by intro n hn; rw [ho] at hn; simp at hn; subst hn; exact ⟨a, ins, hst, hnw⟩)
       (hinv k) (cut k) (n0 k)
-    have := view_good (bs k) _ (n0 k) (GoodOut exec ruleSer pathSer) (by rw [hfb]; exact hsl) c st hv
-    exact this
+    exact view_good (bs k) _ (n0 k) (GoodOut exec ruleSer pathSer) hsl c st hv
   have h := buildList_spec fx mv exec ruleSer pathSer hmv hf hR hP r sel r.targets [] _ [] rfl hInv
     (by intro k hk; simp at hk) hwf
   intro k hk
@@ -376,166 +286,63 @@ theorem C32_interleaving {K : Type} [DecidableEq K] (g : K → TState N C S) (bs
     ∀ k, applyGs g l k = applyOps (g k) ((planG (bs k) (g k)).take (cut k)) := by
   intro k; rw [applyGs_proj, h k]
 
-/-! ### witnesses: where the full-strength property ("any later tree") fails on the code as it is -/
-namespace W
-def st (md : Option (List UInt8)) (s0 : Slice Nat Nat) : TState Nat Nat Nat :=
-  ⟨md, none, none, fun n => if n = 0 then s0 else ⟨none, none, none⟩, 0⟩
-/-- one output (name 0) with content `new` under stamp `stamp`; the gob is [1,2,3], written as [1] then [2,3] -/
-def par (new stamp : Nat) (fb : Bool) (rm : List Nat) (readsMd : Bool) : Params Nat Nat Nat Nat :=
-  { outs := [0], new := fun _ => new, stamp := stamp, hash := id, mdBytes := [1, 2, 3], mdSplit := [1],
-    mdLoads := fun bs => bs == [1, 2, 3], useFb := fun _ => fb, mdUseFb := fb, rmSteps := fun _ => rm, fbParts := [],
-    cache := false, readsMd := readsMd }
-/-- tree T0 ↦ content 10 under stamp 100, tree T1 ↦ content 20 under stamp 200 -/
-def good (c s : Nat) : Prop := (s = 100 ∧ c = 10) ∨ (s = 200 ∧ c = 20)
-end W
+/-! ### before the repair: what the old step order (`plan = planWith codedOrder`) got wrong -/
 
-open W in
-/-- **Stale fallback record.**  Stamps in fallback records (xattrs disabled, or a symlink output).  plz-out holds a
-    complete build of T0.  The tree is edited to T1 and the build is killed right after `os.Rename` put the new output
-    in place (cut 9): `.rule_hash_<out>` still holds T0's stamp.  The tree is reverted to T0: the next build finds
-    nothing to do and keeps T1's output (20), where a clean build gives 10. -/
-theorem C32_witness_fallback_stale_stamp :
+open Unrepaired.W in
+/-- stale fallback record: see `Unrepaired.C32_witness_fallback_stale_stamp` -/
+theorem C32_before_fix_fallback_stale_stamp :
     SliceInv good true ((st (some [9]) ⟨none, some ⟨10, none⟩, some (.full 100)⟩).out 0) ∧
     needsBuilding (par 10 100 true [] false)
       (applyOps (st (some [9]) ⟨none, some ⟨10, none⟩, some (.full 100)⟩)
-        ((planG (par 20 200 true [] false) (st (some [9]) ⟨none, some ⟨10, none⟩, some (.full 100)⟩)).take 9)) = false ∧
-    (((buildG (par 10 100 true [] false) false
+        ((plan (par 20 200 true [] false) (st (some [9]) ⟨none, some ⟨10, none⟩, some (.full 100)⟩)).take 9)) = false ∧
+    (((buildFS (par 10 100 true [] false) false
       (applyOps (st (some [9]) ⟨none, some ⟨10, none⟩, some (.full 100)⟩)
-        ((planG (par 20 200 true [] false) (st (some [9]) ⟨none, some ⟨10, none⟩, some (.full 100)⟩)).take 9))).1.out 0).gen.map (·.content))
+        ((plan (par 20 200 true [] false) (st (some [9]) ⟨none, some ⟨10, none⟩, some (.full 100)⟩)).take 9))).1.out 0).gen.map (·.content))
       = some 20 ∧
-    (par 10 100 true [] false).new 0 = 10 := by
-  refine ⟨?_, by decide, by decide, rfl⟩
-  intro nd s hg hs
-  simp [st] at hg; subst hg
-  simp [st, sliceStamp, Fb.read] at hs; subst hs
-  exact Or.inl ⟨rfl, rfl⟩
-
-open W in
-/-- **Partially removed directory output.**  Stamps as xattrs.  plz-out holds a complete build of T0 whose output is a
-    directory (content 10, xattr 100 on the directory inode).  The build of the edited tree T1 is killed inside
-    `os.RemoveAll` of the old directory (cut 8: one entry unlinked, content 11).  The tree is reverted to T0: the next
-    build finds the xattr of T0 and keeps the half-empty directory. -/
-theorem C32_witness_dir_partial_remove :
+    (par 10 100 true [] false).new 0 = 10 :=
+  Unrepaired.C32_witness_fallback_stale_stamp
+open Unrepaired.W in
+/-- partially removed directory output: see `Unrepaired.C32_witness_dir_partial_remove` -/
+theorem C32_before_fix_dir_partial_remove :
     SliceInv good false ((st (some [9]) ⟨none, some ⟨10, some 100⟩, none⟩).out 0) ∧
     needsBuilding (par 10 100 false [] false)
       (applyOps (st (some [9]) ⟨none, some ⟨10, some 100⟩, none⟩)
-        ((planG (par 20 200 false [11] false) (st (some [9]) ⟨none, some ⟨10, some 100⟩, none⟩)).take 8)) = false ∧
-    (((buildG (par 10 100 false [] false) false
+        ((plan (par 20 200 false [11] false) (st (some [9]) ⟨none, some ⟨10, some 100⟩, none⟩)).take 8)) = false ∧
+    (((buildFS (par 10 100 false [] false) false
       (applyOps (st (some [9]) ⟨none, some ⟨10, some 100⟩, none⟩)
-        ((planG (par 20 200 false [11] false) (st (some [9]) ⟨none, some ⟨10, some 100⟩, none⟩)).take 8))).1.out 0).gen.map (·.content))
-      = some 11 := by
-  refine ⟨?_, by decide, by decide⟩
-  intro nd s hg hs
-  simp [st] at hg; subst hg
-  simp [st, sliceStamp] at hs; subst hs
-  exact Or.inl ⟨rfl, rfl⟩
-
-open W in
-/-- **Truncated metadata under current stamps.**  A target whose up-to-date path loads its metadata (post-build
-    function).  plz-out holds a complete build of T1; `plz build --rebuild` of the same tree is killed inside
-    `StoreTargetMetadata` (cut 5: the first piece of the gob is written).  The next build finds everything stamped as
-    current, fails to decode the metadata, FAILS and removes the outputs; the build after that succeeds. -/
-theorem C32_witness_truncated_metadata :
-    (buildG (par 20 200 false [] true) false
+        ((plan (par 20 200 false [11] false) (st (some [9]) ⟨none, some ⟨10, some 100⟩, none⟩)).take 8))).1.out 0).gen.map (·.content))
+      = some 11 :=
+  Unrepaired.C32_witness_dir_partial_remove
+open Unrepaired.W in
+/-- truncated metadata under current stamps: see `Unrepaired.C32_witness_truncated_metadata` -/
+theorem C32_before_fix_truncated_metadata :
+    (buildFS (par 20 200 false [] true) false
       (applyOps (st (some [1, 2, 3]) ⟨none, some ⟨20, some 200⟩, none⟩)
-        ((planG (par 20 200 false [] true) (st (some [1, 2, 3]) ⟨none, some ⟨20, some 200⟩, none⟩)).take 5))).2 = false ∧
-    ((buildG (par 20 200 false [] true) false
+        ((plan (par 20 200 false [] true) (st (some [1, 2, 3]) ⟨none, some ⟨20, some 200⟩, none⟩)).take 5))).2 = false ∧
+    ((buildFS (par 20 200 false [] true) false
       (applyOps (st (some [1, 2, 3]) ⟨none, some ⟨20, some 200⟩, none⟩)
-        ((planG (par 20 200 false [] true) (st (some [1, 2, 3]) ⟨none, some ⟨20, some 200⟩, none⟩)).take 5))).1.out 0).gen = none ∧
-    (buildG (par 20 200 false [] true) false (buildG (par 20 200 false [] true) false
+        ((plan (par 20 200 false [] true) (st (some [1, 2, 3]) ⟨none, some ⟨20, some 200⟩, none⟩)).take 5))).1.out 0).gen = none ∧
+    (buildFS (par 20 200 false [] true) false (buildFS (par 20 200 false [] true) false
       (applyOps (st (some [1, 2, 3]) ⟨none, some ⟨20, some 200⟩, none⟩)
-        ((planG (par 20 200 false [] true) (st (some [1, 2, 3]) ⟨none, some ⟨20, some 200⟩, none⟩)).take 5))).1).2 = true := by
-  decide
+        ((plan (par 20 200 false [] true) (st (some [1, 2, 3]) ⟨none, some ⟨20, some 200⟩, none⟩)).take 5))).1).2 = true :=
+  Unrepaired.C32_witness_truncated_metadata
 
-/-! ### the proposed repair, checked on the model
-`fixedOrder` = the coded phase order preceded by a phase that drops the stamp (xattr and fallback record) of every
-declared output.  This is the fix sketched in the three findings; the theorems below show it closes all of them. -/
-
-/-- **With the repair the history invariant survives every cut in EVERY stamp mode and for directory outputs**
-    (compare `C32_crash_inv_partial`, which needs xattr stamps and file outputs for the code as it is). -/
-theorem C32_fixed_crash_inv (b : Params N C S H) (G : N → C → S → Prop) (fs : TState N C S)
-    (hnd : b.outs.Nodup) (hH : Function.Injective b.hash)
-    (hnew : ∀ n ∈ b.outs, G n (b.new n) b.stamp)
-    (hinv : ∀ n, SliceInv (G n) (b.useFb n) (fs.out n)) (k : Nat) :
-    ∀ n, SliceInv (G n) (b.useFb n) ((applyOps fs ((planFixed b fs).take k)).out n) := by
-  intro n
-  obtain ⟨j, hj⟩ := take_filterMap (proj n) (planFixed b fs) k
-  rw [applyOps_out, hj]
-  by_cases hn : n ∈ b.outs
-  · rw [planFixed_proj b fs n hnd hn]
-    exact fixed_sliceInv b fs n (G n) hH (hnew n hn) (hinv n) j
-  · rw [planFixed_proj_other b fs n hn]
-    cases j with
-    | zero => exact hinv n
-    | succ j =>
-      simp only [List.take_succ_cons, List.take_nil]
-      exact sliceInv_congr (G n) (b.useFb n) (fs.out n) _ rfl rfl (hinv n)
-
-/-- **With the repair a truncated metadata file is never trusted**: in every crash state that `needsBuilding` accepts,
-    the metadata file decodes (`hmd0`: it did so before the build step whenever the stamps were current). -/
-theorem C32_fixed_metadata_never_truncated (b : Params N C S H) (fs : TState N C S)
-    (hnd : b.outs.Nodup) (hne : b.outs ≠ []) (hload : b.mdLoads b.mdBytes = true)
-    (hmd0 : ∀ bs, fs.md = some bs → (∀ n ∈ b.outs, readStamp b fs n = some b.stamp) → b.mdLoads bs = true) (k : Nat)
-    (hnb : needsBuilding b (applyOps fs ((planFixed b fs).take k)) = false) :
-    mdFails b (applyOps fs ((planFixed b fs).take k)) = false := by
-  obtain ⟨⟨bs, hbs⟩, hall⟩ := needsBuilding_false b _ hnb
-  have hl : b.mdLoads bs = true := by
-    rcases crash_fixed_md b fs hnd hne k with ⟨h1, h2⟩ | ⟨n, hn, h⟩ | h
-    · exact hmd0 bs (by rw [← h1, hbs]) (by intro n hn; rw [← h2 n]; exact (hall n hn).1)
-    · rw [(hall n hn).1] at h; simp at h
-    · rw [hbs] at h; simp at h; rw [h]; exact hload
-  simp [mdFails, hbs, hl]
-
-section HistoryFixed
-open PlzVerif.Build
-variable {K A F N' S' : Type} [DecidableEq K] [DecidableEq S'] [DecidableEq N']
-variable (fx : Facts) (mv : C → C → C) (exec : A → List (N' × C) → C) (ruleSer : A → S') (pathSer : C → H)
-
-/-- **With the repair, C32 ⇒ C01 after a crash in every stamp mode and for directory outputs**: the statement of
-    `C32_main_partial` without its two restrictions. -/
-theorem C32_fixed_main (hmv : MvOK pathSer mv) (hf : fx.cmpRule = true ∧ fx.cmpSource = true)
-    (hR : Function.Injective ruleSer) (hP : Function.Injective pathSer)
-    (g : K → TState N C (Stamp S' N' H)) (bs : K → Params N C (Stamp S' N' H) H) (n0 : K → N)
-    (hb : ∀ k, (bs k).outs = [n0 k] ∧ (bs k).hash = pathSer ∧
-      ∃ a ins, (bs k).stamp = stampOf ruleSer pathSer a ins ∧ (bs k).new (n0 k) = exec a ins)
-    (hinv : ∀ k n, SliceInv (GoodOut exec ruleSer pathSer) ((bs k).useFb n) ((g k).out n))
-    (cut : K → Nat) (r : Repo K A F N' C) (sel : K → Bool) (hwf : WFList sel [] r.targets) :
-    ∀ k ∈ selKeys sel r.targets, ∃ c st,
-      (build fx mv exec ruleSer pathSer r sel
-        (fun k => view (bs k) (applyOps (g k) ((planFixed (bs k) (g k)).take (cut k))) (n0 k))).1 k = some (c, st) ∧
-      (clean exec r sel).lookup k = some c := by
-  have hInv : Inv exec ruleSer pathSer
-      (fun k => view (bs k) (applyOps (g k) ((planFixed (bs k) (g k)).take (cut k))) (n0 k)) := by
-    intro k c st hv
-    obtain ⟨ho, hh, a, ins, hst, hnw⟩ := hb k
-    have hsl := C32_fixed_crash_inv (bs k) (fun _ => GoodOut exec ruleSer pathSer) (g k)
-      (by rw [ho]; simp) (by rw [hh]; exact hP)
-      (by intro n hn; rw [ho] at hn; simp at hn; subst hn; exact ⟨a, ins, hst, hnw⟩)
-      (hinv k) (cut k) (n0 k)
-    exact view_good (bs k) _ (n0 k) (GoodOut exec ruleSer pathSer) hsl c st hv
-  have h := buildList_spec fx mv exec ruleSer pathSer hmv hf hR hP r sel r.targets [] _ [] rfl hInv
-    (by intro k hk; simp at hk) hwf
-  intro k hk
-  exact h.2.2 k (by simpa using hk)
-
-end HistoryFixed
-
-open W in
-/-- the three witness scenarios under the repair: at no cut is a wrong output trusted, and no build fails -/
-example : ∀ k < 20,
+open Unrepaired.W in
+/-- the same three scenarios with the regenerated (repaired) order: at no cut is a wrong output trusted, and no build fails -/
+theorem C32_witnesses_closed : ∀ k < 20,
     (needsBuilding (par 10 100 true [] false)
       (applyOps (st (some [9]) ⟨none, some ⟨10, none⟩, some (.full 100)⟩)
-        ((planFixed (par 20 200 true [] false) (st (some [9]) ⟨none, some ⟨10, none⟩, some (.full 100)⟩)).take k)) = true ∨
+        ((planG (par 20 200 true [] false) (st (some [9]) ⟨none, some ⟨10, none⟩, some (.full 100)⟩)).take k)) = true ∨
      (((applyOps (st (some [9]) ⟨none, some ⟨10, none⟩, some (.full 100)⟩)
-        ((planFixed (par 20 200 true [] false) (st (some [9]) ⟨none, some ⟨10, none⟩, some (.full 100)⟩)).take k)).out 0).gen.map (·.content)) = some 10) ∧
+        ((planG (par 20 200 true [] false) (st (some [9]) ⟨none, some ⟨10, none⟩, some (.full 100)⟩)).take k)).out 0).gen.map (·.content)) = some 10) ∧
     (needsBuilding (par 10 100 false [] false)
       (applyOps (st (some [9]) ⟨none, some ⟨10, some 100⟩, none⟩)
-        ((planFixed (par 20 200 false [11] false) (st (some [9]) ⟨none, some ⟨10, some 100⟩, none⟩)).take k)) = true ∨
+        ((planG (par 20 200 false [11] false) (st (some [9]) ⟨none, some ⟨10, some 100⟩, none⟩)).take k)) = true ∨
      (((applyOps (st (some [9]) ⟨none, some ⟨10, some 100⟩, none⟩)
-        ((planFixed (par 20 200 false [11] false) (st (some [9]) ⟨none, some ⟨10, some 100⟩, none⟩)).take k)).out 0).gen.map (·.content)) = some 10) ∧
-    (buildFSWith fixedOrder (par 20 200 false [] true) false
+        ((planG (par 20 200 false [11] false) (st (some [9]) ⟨none, some ⟨10, some 100⟩, none⟩)).take k)).out 0).gen.map (·.content)) = some 10) ∧
+    (buildG (par 20 200 false [] true) false
       (applyOps (st (some [1, 2, 3]) ⟨none, some ⟨20, some 200⟩, none⟩)
-        ((planFixed (par 20 200 false [] true) (st (some [1, 2, 3]) ⟨none, some ⟨20, some 200⟩, none⟩)).take k))).2 = true := by
+        ((planG (par 20 200 false [] true) (st (some [1, 2, 3]) ⟨none, some ⟨20, some 200⟩, none⟩)).take k))).2 = true := by
   decide
 
 /-! ### fs.WriteFile -/
@@ -591,14 +398,42 @@ theorem C32_writeFile_complete (t dest : String) (ht : t ≠ dest) (chunks : Lis
   simp only [run] at h1
   simp [run, List.foldl_append, step, h1, ht]
 
--- non-vacuity of C32_recover's hypotheses: the witness state and parameters satisfy them
-example : (W.par 20 200 true [] false).outs.Nodup ∧ (W.par 20 200 true [] false).outs ≠ [] ∧
-    Function.Injective (W.par 20 200 true [] false).hash ∧
-    (∀ n ∈ (W.par 20 200 true [] false).outs, ∀ c, W.good c (W.par 20 200 true [] false).stamp → c = (W.par 20 200 true [] false).new n) := by
-  refine ⟨by simp [W.par], by simp [W.par], fun a b h => h, ?_⟩
-  intro n _ c h
-  rcases h with ⟨h, _⟩ | ⟨_, h⟩
-  · simp [W.par] at h
-  · simpa [W.par] using h
+-- non-vacuity of C32_main's hypotheses (jointly): one target, attributes/inputs/contents as numbers, a fallback-record stamp
+open PlzVerif.Build in
+example : ∃ (g : Unit → TState Nat Nat (Stamp Nat Nat Nat)) (bs : Unit → Params Nat Nat (Stamp Nat Nat Nat) Nat) (n0 : Unit → Nat),
+    (∀ k, (bs k).outs = [n0 k] ∧ (bs k).hash = id ∧
+      ∃ a ins, (bs k).stamp = stampOf (fun a : Nat => a) id a ins ∧ (bs k).new (n0 k) = (fun (a : Nat) (ins : List (Nat × Nat)) => a + ins.length) a ins) ∧
+    (∀ k n, SliceInv (GoodOut (fun (a : Nat) (ins : List (Nat × Nat)) => a + ins.length) (fun a : Nat => a) id) ((bs k).useFb n) ((g k).out n)) ∧
+    Function.Injective (fun a : Nat => a) ∧ MvOK (id : Nat → Nat) (mvCoded Facts.asCoded id) :=
+  ⟨fun _ => ⟨none, none, none, fun _ => ⟨none, none, none⟩, 0⟩,
+   fun _ => { outs := [0], new := fun _ => 7, stamp := stampOf (fun a : Nat => a) id 7 [], hash := id, mdBytes := [1], mdSplit := [],
+              mdLoads := fun _ => true, useFb := fun _ => true, mdUseFb := true, rmSteps := fun _ => [3], fbParts := [5],
+              cache := true, readsMd := false },
+   fun _ => 0,
+   fun _ => ⟨rfl, rfl, 7, [], rfl, rfl⟩,
+   fun _ _ nd s hg _ => by simp at hg,
+   fun a b h => h, mvCoded_ok _ _⟩
+
+-- non-vacuity of C32_recover's hypotheses: a concrete state and step satisfy `StepOK`
+open Unrepaired.W in
+example : StepOK (par 20 200 true [] false) (fun _ => good) (st (some [9]) ⟨none, some ⟨10, none⟩, some (.full 100)⟩) where
+  nodup := by simp [par]
+  nonempty := by simp [par]
+  hashInj := fun a b h => h
+  determines := by
+    intro n _ c h
+    rcases h with ⟨h, _⟩ | ⟨_, h⟩
+    · simp [par] at h
+    · simpa [par] using h
+  produces := by intro n _; exact Or.inr ⟨rfl, rfl⟩
+  inv := by
+    intro n nd s hg hs
+    by_cases hn : n = 0
+    · subst hn
+      simp [st] at hg; subst hg
+      simp [st, par, sliceStamp, Fb.read] at hs; subst hs
+      exact Or.inl ⟨rfl, rfl⟩
+    · simp [st, hn] at hg
+  md := by intro h; simp [par] at h
 
 end PlzVerif.Props.C32
